@@ -15,7 +15,7 @@ LEVELS = {
             "Coq invariant over all operation sequences + exact correspondence + construction-path oracle (partial)"),
     "C15": ("PARTIAL. cv2.findContours is a black box. Proved: vertices are interned by pixel position and there is one cell per contour "
             "with one vertex per contour pixel, one mesh edge per unordered pair of consecutive contour vertices, a border cell has a vertex of its own; the large-area filter keeps a contour exactly by its own area, independently of contour order, "
-            "and commutes with translations, flips, transposition and quarter turns (models compared on the actual OpenCV output); of the clean-up: a vertex is an artefact exactly when it has three mesh edges, two cells and lies on no external mesh edge, the contraction (T3) of an artefact creates a vertex with a fresh id, loses no cell, and Cell.replace_vertex on a cycle without repeated vertex removes the artefact vertex and leaves the new one exactly once; under executable premises (cycles without repeated vertex, artefact vertices registered on their cells) the contraction leaves no artefact vertex in any cell cycle; the artefacts handed to it are non-empty groups of artefact vertices (Model/SkeletonT3.v, tied step by step to get_artifacts / do_t3_transition on snapshots around the real calls). One cell per region, border flags, internal "
+            "and commutes with translations, flips, transposition and quarter turns (models compared on the actual OpenCV output); of the clean-up: a vertex is an artefact exactly when it has three mesh edges, two cells and lies on no external mesh edge, the contraction (T3) of an artefact creates a vertex with a fresh id, loses no cell, and Cell.replace_vertex on a cycle without repeated vertex removes the artefact vertex and leaves the new one exactly once; under executable premises (cycles without repeated vertex, artefact vertices registered on their cells) the contraction leaves no artefact vertex in any cell cycle; the artefacts handed to it are non-empty groups of artefact vertices; the inner-triangle pass and the removal of isolated cells are modelled as they run (deletion under a live iterator) and create_lattice is tied end to end from the kept contours to the returned mesh (Model/SkeletonT3.v, tied step by step to get_artifacts / do_t3_transition on snapshots around the real calls). One cell per region, border flags, internal "
             "interfaces, junction count, Frame construction and their equality under the 8 symmetries / padding / mirror_y are evaluated "
             "by the oracle on square and honeycomb raster lattices (known topology) and the shipped images", "5/C15",
             "Coq theorems on the post-contour logic + symmetry oracle (partial)"),
